@@ -56,7 +56,7 @@ def run_checks(patch, checks, tier):
         results = {}
         for c in checks:
             t0 = time.time()
-            rc, out = sh("./check %s --tier %s" % (c, tier), cwd=VERIF, env={"VERIF_REPO": scratch})
+            rc, out = sh("./check %s --tier %s" % (c, tier), cwd=VERIF, env={"VERIF_REPO": scratch, "VERIF_EVIDENCE_DIR": scratch + "-evidence"})
             viol = [l for l in out.splitlines() if l.startswith("VIOLATION")]
             results[c] = {"rc": rc, "violations": len(viol), "s": round(time.time() - t0, 1),
                           "first_why": next((l.strip() for l in out.splitlines() if l.strip().startswith("why:")), "")[:300],
@@ -64,6 +64,7 @@ def run_checks(patch, checks, tier):
         return results
     finally:
         sh("git -C /repo worktree remove --force %s" % scratch)
+        shutil.rmtree(scratch + "-evidence", ignore_errors=True)
         shutil.rmtree(scratch, ignore_errors=True)
 
 
